@@ -522,7 +522,7 @@ func checkC10(c *Ctx, r *Report) {
 // k itself was just added to the pool. (GETFIELD/SETFIELD/BIND/DEFBLOCK
 // operands come out of this cache and the VM asserts them to be strings.)
 func ruleConstCache(c *Ctx, r *Report, rule string) {
-	r.rule(rule, 2, "every store into the parser's constant-index cache (a map[string]int field of parser) has the form cache[k] = i where i is the result of adding the value k — the same string — to the constant pool (makeConst/addConst/identConst); so a cache hit always names a string constant spelled like the key")
+	r.rule(rule, 1, "every store into the parser's constant-index cache (a map[string]int field of parser) has the form cache[k] = i where i is the result of adding the value k — the same string — to the constant pool (makeConst/addConst/identConst); so a cache hit always names a string constant spelled like the key")
 	pt := namedType(c.Bcl, "parser")
 	if pt == nil {
 		r.bad(rule, "parser", "type not found", "")
